@@ -44,6 +44,25 @@ def h_surface_views(cx, sp):
         for j in range(sv):
             exp = ([x * W[j + sv * i] for x in Q[j + sv * i]] + [W[j + sv * i]]) if W else list(Q[j + sv * i])
             cx.eq('ctrlpts2d_after_assignment[%d][%d]' % (i, j), list(g4[i][j]), exp)
+    # a coordinate overwritten through the list the flat getter hands out: whatever that does, flat list, grid view,
+    # block lookup and transposition keep addressing one and the same net
+    o5 = shapes.clone(obj)
+    o5.ctrlpts2d                                   # (views read before)
+    store = o5.ctrlptsw if o5.rational else o5.ctrlpts
+    try:
+        store[sv + 1 if su > 1 and sv > 1 else 1][0] = cx.real('E0')
+    except TypeError:
+        pass
+    flat5 = [list(p) for p in (o5.ctrlptsw if o5.rational else o5.ctrlpts)]
+    g5 = o5.ctrlpts2d
+    for i in range(su):
+        for j in range(sv):
+            cx.eq('after_inplace_edit.ctrlpts2d[%d][%d]' % (i, j), list(g5[i][j]), flat5[j + sv * i])
+    t5 = geo.M('operations').transpose(o5)
+    flat5t = [list(p) for p in (t5.ctrlptsw if t5.rational else t5.ctrlpts)]
+    for i in range(su):
+        for j in range(sv):
+            cx.eq('after_inplace_edit.transposed[%d][%d]' % (j, i), flat5t[i + su * j], flat5[j + sv * i])
     # managers
     CP = geo.M('control_points')
     m = CP.SurfaceManager(su, sv)
@@ -171,6 +190,19 @@ def h_extract_construct_surface(cx, sp, direction):
         cx.eq('vcurve[%d].ctrlpts' % i, [list(p) for p in c.ctrlpts], [P[j + sv * i] for j in range(sv)])
         if W:
             cx.eq('vcurve[%d].weights' % i, list(c.weights), [W[j + sv * i] for j in range(sv)])
+    # the direction options select the families, they do not change them
+    only_u = con.extract_curves(obj, extract_v=False)
+    only_v = con.extract_curves(obj, extract_u=False)
+    cx.check('extract_v=False', len(only_u.get('u', [])) == sv and len(only_u.get('v', [])) == 0, 'u:%d v:%d' % (len(only_u.get('u', [])), len(only_u.get('v', []))))
+    cx.check('extract_u=False', len(only_v.get('v', [])) == su and len(only_v.get('u', [])) == 0, 'u:%d v:%d' % (len(only_v.get('u', [])), len(only_v.get('v', []))))
+    for j, c in enumerate(only_u.get('u', [])):
+        cx.eq('only_u[%d].ctrlpts' % j, [list(p) for p in c.ctrlpts], [P[j + sv * i] for i in range(su)])
+    for i, c in enumerate(only_v.get('v', [])):
+        cx.eq('only_v[%d].ctrlpts' % i, [list(p) for p in c.ctrlpts], [P[j + sv * i] for j in range(sv)])
+    if direction == 'u':
+        cur = dict(cur, v=only_v.get('v', []))          # rebuild from the family extracted on its own
+    else:
+        cur = dict(cur, u=only_u.get('u', []))
     # the curves that run along v (one per u index) are stacked along u, and vice versa
     if direction == 'u':
         s2 = con.construct_surface('u', *cur['v'], degree=obj.degree_u, knotvector=list(obj.knotvector_u))
